@@ -126,6 +126,8 @@ def build_traces(path, tier, seed):
         else:
             # the flag / tolerance as the scalar types a caller may hand over (python, numpy, int)
             f_ = [False, np.bool_(False), 0][int(rng.integers(3))]
+            if rng.integers(4) == 0:
+                gen.array_noise(rng, arg)
             zcf = pc.get_zero_crossings_array_indices(arg, keep_adj_zeros=f_, tol=[0.0, 0, np.float64(0.0)][int(rng.integers(3))])
             sw0 = pc.get_switched_peak_array_indices(arg, tol=[0.0, 0, np.float64(0.0)][int(rng.integers(3))])
         rec = {"tid": tid, "x": enc_seq(x), "tol": enc(tol),
